@@ -1638,18 +1638,18 @@ int main(int argc, char** argv)
   const u64 tokQ = (countStrings(5, tokMaxLen(0)) + kTokBlock - 1) / kTokBlock, tokT = (countStrings(5, tokMaxLen(1)) + kTokBlock - 1) / kTokBlock;
   const u64 nPatterns = countStrings(3, kGlobMaxLen);
   vector<vrt::Group> groups = {
-    { "number-roundtrip", 400, 20000, caseNumberRoundTrip, 600, false },
-    { "grammar-exhaustive", grammarCases(0), grammarCases(1), caseGrammarExhaustive, 900, true },
-    { "grammar-random", 2000, 100000, caseGrammarRandom, 600, false },
-    { "tokenizer-exhaustive", tokQ, tokT, caseTokenizerExhaustive, 900, true },
-    { "tokenizer-random", 1500, 60000, caseTokenizerRandom, 600, false },
-    { "nested-exhaustive", tokQ, tokT, caseNestedExhaustive, 900, true },
-    { "nested-random", 1500, 60000, caseNestedRandom, 600, false },
-    { "keyval", 4200, 210000, caseKeyval, 600, false },
-    { "wildcard", nPatterns, nPatterns, caseWildcard, 1800, true },
-    { "variables", 3000, 120000, caseVariables, 600, false },
-    { "table", 3000, 100000, caseTable, 600, false },
-    { "distribution", 1600, 48000, caseDistribution, 900, false },
+    { "number-roundtrip", 400, 20000, caseNumberRoundTrip, 1200, false },
+    { "grammar-exhaustive", grammarCases(0), grammarCases(1), caseGrammarExhaustive, 3600, true },
+    { "grammar-random", 2000, 100000, caseGrammarRandom, 1800, false },
+    { "tokenizer-exhaustive", tokQ, tokT, caseTokenizerExhaustive, 3600, true },
+    { "tokenizer-random", 1500, 60000, caseTokenizerRandom, 1800, false },
+    { "nested-exhaustive", tokQ, tokT, caseNestedExhaustive, 3600, true },
+    { "nested-random", 1500, 60000, caseNestedRandom, 1800, false },
+    { "keyval", 4200, 210000, caseKeyval, 1800, false },
+    { "wildcard", nPatterns, nPatterns, caseWildcard, 7200, true },
+    { "variables", 3000, 120000, caseVariables, 1800, false },
+    { "table", 3000, 100000, caseTable, 1800, false },
+    { "distribution", 1600, 48000, caseDistribution, 3600, false },
     { "known-witness", 3, 3, caseKnown, 600, false },
   };
   vrt::Meta meta;
